@@ -19,10 +19,10 @@ CFG = dict(
           "included: they exercise the iterator algebra without dereferencing)."),
     exhaustive={"quick": True, "thorough": True},
     exhaustive_domain={"quick": "w,h in 0..7, base + 10 depth-1 views (+nth_channel), all (i,j) pairs, walks of 16 moves",
-                       "thorough": "w,h in 0..10, depth-2 words for w*h<=16, all (i,j) pairs, walks of 64 moves"},
+                       "thorough": "w,h in 0..12, depth-2 words for w*h<=36, all (i,j) pairs, walks of 64 moves"},
     types=ORG_NAMES,
     assumptions=["locator walks are seeded samples (4 walks per view)", "anchors: all for views of <=36 pixels, a seeded quarter above",
                  "BOOST_ASSERTs off (NDEBUG)"],
     tus=[tu("c03_org%d" % k, "harness/c03_navigation.cpp", "asan", extra=NONULL + ["-DORG=%d" % k]) for k in ORGS],
-    runs=[run("c03_org%d" % k, shards=2, min_cases={"quick": 64, "thorough": 121}) for k in ORGS],
+    runs=[run("c03_org%d" % k, shards={"quick": 2, "thorough": 8}, min_cases={"quick": 64, "thorough": 169}) for k in ORGS],
 )
